@@ -38,7 +38,7 @@ def same_graph_state(g):
 @contract("fggs.fggs.Graph.add_node")
 class Graph_add_node:
     sig = {"self": "Graph", "node": "Node"}
-    properties = ["C16"]
+    properties = ["C16", "C15"]
     requires = lambda self, node: wf_graph(self)
     ensures = {
         "wf": lambda self, node: wf_graph(self),
@@ -209,7 +209,7 @@ class Graph_remove_node:
 @contract("fggs.fggs.Graph.remove_edge")
 class Graph_remove_edge:
     sig = {"self": "Graph", "edge": "Edge"}
-    properties = ["C16"]
+    properties = ["C16", "C15"]
     requires = lambda self, edge: wf_graph(self)
     ensures = {
         "wf": lambda self, edge: wf_graph(self),
@@ -218,9 +218,8 @@ class Graph_remove_edge:
                                     and self._node_labels == old(self._node_labels)
                                     and self._edge_labels == old(self._edge_labels)),
     }
-    # (the property does not demand that a different edge re-using a member's id is rejected:
-    #  the edge stored under that id is removed and the graph stays well formed)
-    raises = {"ValueError": lambda self, edge: edge.id not in self._edges}
+    # only an edge OF THE GRAPH can be removed (replace_edge relies on this to reject a foreign edge)
+    raises = {"ValueError": lambda self, edge: not (edge.id in self._edges and self._edges[edge.id] == edge)}
     on_raise = {"ValueError": lambda self, edge: same_graph_state(self)}
 
 
@@ -250,7 +249,7 @@ def nodes_added(g, nodes, upto):
 @contract("fggs.fggs.Graph.add_edge")
 class Graph_add_edge:
     sig = {"self": "Graph", "edge": "Edge"}
-    properties = ["C16"]
+    properties = ["C16", "C15"]
     requires = lambda self, edge: wf_graph(self)
     loops = {0: lambda self, edge, _i: add_loop_inv(self, edge.nodes, _i) and not nodes_conflict_old(self, edge.nodes)}
     ensures = {
@@ -280,7 +279,7 @@ def add_loop_inv(g, nodes, i):
 @contract("fggs.fggs.Graph._check_new_nodes")
 class Graph_check_new_nodes:
     sig = {"self": "Graph", "nodes": "seq[Node]"}
-    properties = ["C16"]
+    properties = ["C16", "C15"]
     locals = {"seen": "dict[Id,Node]"}
     requires = lambda self, nodes: wf_graph(self)
     loops = {0: lambda self, nodes, seen, _i: (
